@@ -130,3 +130,17 @@ Example C16_uuid_text_forms :
   uuid_parse (firstn 35 (uuid_str n)) = None /\
   uuid_parse (uuid_str n ++ [48])%Z = None.
 Proof. vm_compute. repeat split. Qed.
+
+(* "values of the other declared compatible types ... returning what that constructor returns", for the int
+   source of Decimal: with [dec_of_int z] = sign, coefficient |z|, exponent 0 as the constructor's answer
+   (compared with Decimal(z) on every run), every int is accepted, and what comes back is numerically z *)
+Theorem C16_decimal_of_int :
+  forall E, (forall z, oracle E OkDecimal (VInt z) = Some (dec_of_int z)) ->
+  forall z fuel m, run E m (S fuel) (Scalar KDecimal (Some CoDecimal) [] [] []) (VInt z) = OValid (dec_of_int z).
+Proof. exact decimal_of_int. Qed.
+Print Assumptions C16_decimal_of_int.
+
+Theorem C16_decimal_of_int_is_the_int :
+  forall z, exists q, num_of (dec_of_int z) = Some (NumFin q) /\ QArith_base.Qeq q (QArith_base.inject_Z z).
+Proof. exact dec_of_int_num. Qed.
+Print Assumptions C16_decimal_of_int_is_the_int.
